@@ -81,8 +81,9 @@ type world struct {
 	rr       *roundrobin.RoundRobin
 	rb       *roundrobin.Rebalancer
 	backoff  time.Duration
-	servers  []*srv // current members, by insertion order
-	pending  *meter // meter handed out by the next newMeter call
+	exchange time.Duration // how long the next exchanges take (0: no time at all)
+	servers  []*srv        // current members, by insertion order
+	pending  *meter        // meter handed out by the next newMeter call
 	now      time.Duration
 	log      []string
 	lastChg  time.Duration // instant of the last request-caused weight change since the last membership change (-1 none)
@@ -369,6 +370,10 @@ func newWorld(t *rapid.T, scripted bool) *world {
 		if w.handler != nil {
 			code = w.handler(r.URL)
 		}
+		if w.exchange > 0 { // an exchange that takes time (long poll, stream, slow backend): the clock moves while it is in flight
+			clock.Advance(w.exchange)
+			w.now += w.exchange
+		}
 		rw.WriteHeader(code)
 	})
 	rr, err := roundrobin.New(next)
@@ -431,7 +436,12 @@ func TestC10_ScriptedRatings(t *testing.T) {
 			case 5, 6:
 				w.advance(step(rapid.SampledFrom([]int64{bms / 4, bms / 2, bms - 1, bms, bms + 1, 2 * bms, 3*bms + 7}).Draw(t, "adv")))
 			case 7, 8:
+				if rapid.IntRange(0, 3).Draw(t, "longExchange") == 0 {
+					w.exchange = step(rapid.SampledFrom([]int64{bms / 2, bms + 1, 3*bms + bms/2, 35000}).Draw(t, "exchangeMs"))
+					w.logf("the next exchange takes %v", w.exchange)
+				}
 				w.request()
+				w.exchange = 0
 			case 9: // outlier episode (e)
 				k := len(w.servers)
 				nb := rapid.IntRange(1, k-1).Draw(t, "nbad")
